@@ -184,10 +184,15 @@ PROPS = {
                       "C12_instant_requires, C12_annotation_rules (unknown critical key, critical duplicate calendars, first "
                       "calendar wins), C12_digitsN, C12_month_code_zero, C12_short_forms, C12_zone_offset_exact / "
                       "C12_zone_annotation_decides (a time-zone string names its zone by the annotation, else Z, else an offset "
-                      "that is exactly the one written - an offset with seconds names no zone). Tie: grammar-generated strings in "
+                      "that is exactly the one written - an offset with seconds names no zone), C12_zoned_requires_annotation / "
+                      "C12_relative_plain_refuses_Z / C12_unparsable_is_range (zoned and relativeTo strings: "
+                      "Spec/GrammarZoned.lean reads them with the grammar and resolves them with the C13 wall-clock rules). "
+                      "Tie: grammar-generated strings in "
                       "every syntactic variant, 1-2 character mutations and cross-type strings (~30k/run) through FromStr of "
                       "PlainDate, PlainDateTime, PlainTime, PlainYearMonth, PlainMonthDay, Instant, Duration, UtcOffset, MonthCode "
-                      "and TimeZone::try_from_str: verdict AND value compared with the reader.",
+                      "TimeZone::try_from_str, Calendar::from_str, and - for zones given as offsets or UTC - ZonedDateTime::from_str "
+                      "(4 disambiguations x 4 offset options) and RelativeTo::try_from_str: verdict AND value compared with the "
+                      "reader.",
         "level_note": "Trusted: Lean kernel (+propext, Classical.choice, Quot.sound); Spec/Grammar*.lean as my reading of the "
                       "grammar (U+2212 is accepted as a minus sign, as in the grammar version the crate's parser follows; the "
                       "crate's own UtcOffset reader is ASCII-only). The implementation's parser is the `ixdtf` 0.4.0 dependency plus "
